@@ -167,6 +167,21 @@ def genConcat16 (seed : Nat) (maxLen : Nat) : Array String := Id.run do
           for a in repsOf ba do
             for b in (repsOf bb).take 2 do
               out := out.push s!"hex concat {a} {b}"
+  -- long operands: total lengths around the wrap-around points of narrower integers (one and two bytes), on inline
+  -- receivers (empty, short, full) and on a heap receiver
+  for la in [0, 3, 8, 9] do
+    for total in [255, 256, 257, 258, 263, 264, 265, 511, 512, 513, 520] do
+      let lb := total - la
+      let (r', sa) := rng.below 40
+      rng := r'
+      for a in (repsOf (patBytes la (sa + 1))).take 2 do
+        for b in (repsOf (patBytes lb (sa + 2))).take 2 do
+          out := out.push s!"hex concat {a} {b}"
+          out := out.push s!"hex concat {b} {a}"
+  for total in [65535, 65536, 65537, 65544] do
+    for a in (repsOf (patBytes 8 5)).take 1 do
+      for b in (repsOf (patBytes (total - 8) 6)).take 1 do
+        out := out.push s!"hex concat {a} {b}"
   return out
 
 def labelAlphabet : List Char := ['a', 'Z', '0', '5', '9', '+', '-', 'α', 'ρ', 'ν', 'é', Char.ofNat 0x1D711, ' ', 'x', '\'', '"', '\\']
